@@ -588,6 +588,11 @@ func (tree *MutableTree) enableFastStorageAndCommitIfNotEnabled() (bool, error) 
 	for ; fastItr.Valid(); fastItr.Next() {
 		staleFastKeys = append(staleFastKeys, fastItr.Key())
 	}
+	if err := fastItr.Error(); err != nil {
+		// the scan of the stale index is incomplete: do not rebuild on top of it
+		fastItr.Close()
+		return false, err
+	}
 	if err := fastItr.Close(); err != nil {
 		return false, err
 	}
